@@ -154,6 +154,11 @@ pub fn run_fixed(sc: &Scenario, rcfg: &RunCfg, rng: &mut Rng, keys: u64, stats: 
 
 struct Kit {
     next: usize,
+    /// print-free observation (RISC-V backend cannot print)
+    printless: bool,
+    /// bound on the number of clause bodies the observation code may generate (continuations are
+    /// duplicated per clause of a multi-constructor type)
+    obs_budget: isize,
 }
 
 impl Kit {
@@ -276,10 +281,11 @@ fn build(kit: &mut Kit, rng: &mut Rng, ctx: &mut Vec<Bind>, pre: &mut Vec<Pre>, 
             let env = vec![ext(c.clone())];
             ctx.truncate(ctx.len() - 1);
             let a = kit.fresh("a");
-            let body = fold(
-                vec![Pre::Print { newline: true, var: c.clone() }, Pre::Print { newline: false, var: a.clone() }],
-                Stmt::Exit { var: c.clone() },
-            );
+            let body = if kit.printless {
+                Rc::new(Stmt::Exit { var: c.clone() })
+            } else {
+                fold(vec![Pre::Print { newline: true, var: c.clone() }, Pre::Print { newline: false, var: a.clone() }], Stmt::Exit { var: c.clone() })
+            };
             let k = kit.fresh("k");
             let ty = Ty::D(Name::new("Fn", 30));
             pre.push(Pre::Create { var: k.clone(), ty: ty.clone(), env, clauses: vec![Clause { xtor: Name::new("ap", 31), ctx: vec![ext(a)], body }] });
@@ -292,6 +298,9 @@ fn build(kit: &mut Kit, rng: &mut Rng, ctx: &mut Vec<Bind>, pre: &mut Vec<Pre>, 
 /// Observe every variable of `ctx` (print ints, open objects and print their fields, finally
 /// invoke one closure if present) and exit.
 fn observe_all(kit: &mut Kit, ctx: Vec<Bind>, mut pre: Vec<Pre>) -> Rc<Stmt> {
+    if kit.printless {
+        return observe_one(kit, ctx, pre);
+    }
     // print all integers first
     for b in &ctx {
         if b.chi == Chi::E {
@@ -301,7 +310,55 @@ fn observe_all(kit: &mut Kit, ctx: Vec<Bind>, mut pre: Vec<Pre>) -> Rc<Stmt> {
     observe_objects(kit, ctx, pre)
 }
 
+/// print-free observation: the result is one variable (chosen by the binder id parity), an
+/// object is opened and one of its integer fields returned, a closure is invoked
+fn observe_one(kit: &mut Kit, ctx: Vec<Bind>, mut pre: Vec<Pre>) -> Rc<Stmt> {
+    if ctx.is_empty() {
+        let z = kit.fresh("z");
+        pre.push(Pre::Lit { lit: 0, var: z.clone() });
+        return fold(pre, Stmt::Exit { var: z });
+    }
+    let pick = ctx[(kit.next * 7 + 3) % ctx.len()].clone();
+    match pick.chi {
+        Chi::E => fold(pre, Stmt::Exit { var: pick.v.clone() }),
+        Chi::P => {
+            let mut nctx: Vec<Bind> = ctx.iter().filter(|b| b.v != pick.v).cloned().collect();
+            nctx.push(pick.clone());
+            pre.push(Pre::Subst(nctx.iter().map(|b| (b.clone(), b.v.clone())).collect()));
+            nctx.pop();
+            let types = kit_types();
+            let decl = types.iter().find(|t| Ty::D(t.name.clone()) == pick.ty).expect("kit type");
+            let mut clauses = Vec::new();
+            for x in &decl.xtors {
+                let binders: Vec<Bind> = x.args.iter().map(|a| Bind { v: kit.fresh("g"), chi: a.chi, ty: a.ty.clone() }).collect();
+                let body = match binders.iter().rev().find(|b| b.chi == Chi::E) {
+                    Some(b) => Rc::new(Stmt::Exit { var: b.v.clone() }),
+                    None => {
+                        let z = kit.fresh("z");
+                        Rc::new(Stmt::Lit { lit: 5, var: z.clone(), next: Rc::new(Stmt::Exit { var: z }) })
+                    }
+                };
+                clauses.push(Clause { xtor: x.name.clone(), ctx: binders, body });
+            }
+            fold(pre, Stmt::Switch { var: pick.v.clone(), ty: pick.ty.clone(), clauses })
+        }
+        Chi::C => {
+            let a = kit.fresh("z");
+            pre.push(Pre::Lit { lit: 7, var: a.clone() });
+            let args = vec![ext(a.clone())];
+            let map: Vec<(Bind, Name)> = vec![(ext(a.clone()), a.clone()), (pick.clone(), pick.v.clone())];
+            pre.push(Pre::Subst(map));
+            fold(pre, Stmt::Invoke { var: pick.v.clone(), tag: Name::new("ap", 31), ty: pick.ty.clone(), args })
+        }
+    }
+}
+
 fn observe_objects(kit: &mut Kit, ctx: Vec<Bind>, mut pre: Vec<Pre>) -> Rc<Stmt> {
+    if kit.obs_budget <= 0 {
+        let z = kit.fresh("z");
+        pre.push(Pre::Lit { lit: 0, var: z.clone() });
+        return fold(pre, Stmt::Exit { var: z });
+    }
     // find the last object
     if let Some(pos) = ctx.iter().rposition(|b| b.chi == Chi::P) {
         let o = ctx[pos].clone();
@@ -324,6 +381,7 @@ fn observe_objects(kit: &mut Kit, ctx: Vec<Bind>, mut pre: Vec<Pre>) -> Rc<Stmt>
                     cpre.push(Pre::Print { newline: false, var: b.v.clone() });
                 }
             }
+            kit.obs_budget -= 1;
             let body = observe_objects(kit, cctx, cpre);
             clauses.push(Clause { xtor: x.name.clone(), ctx: binders, body });
         }
@@ -360,7 +418,7 @@ fn random_shape(rng: &mut Rng) -> Shape {
 // W-abi (C13): k entry arguments, v live variables of seeded kinds at a print, then observe all
 
 pub fn make_abi(rng: &mut Rng, backends: &[Backend]) -> Scenario {
-    let mut kit = Kit { next: 2000 };
+    let mut kit = Kit { next: 2000, printless: false, obs_budget: 48 };
     let k = rng.below(min_args(backends) + 1);
     let v = rng.below(21);
     let params: Vec<Bind> = (0..k).map(|_| ext(kit.fresh("arg"))).collect();
@@ -391,8 +449,8 @@ pub fn make_abi(rng: &mut Rng, backends: &[Backend]) -> Scenario {
 // W-subst (C11): old environment of n variables; ONE substitution; observe every new variable
 
 pub fn make_subst(rng: &mut Rng, backends: &[Backend]) -> Scenario {
-    let mut kit = Kit { next: 3000 };
     let rv = backends.contains(&Backend::Rv);
+    let mut kit = Kit { next: 3000, printless: rv && rng.pct(45), obs_budget: 48 };
     let cap = if rv { 13 } else { 40 };
     let offset = if rng.pct(70) { rng.below(15) } else { 0 };
     let (n, m) = if rng.pct(70) { (rng.below(6), rng.below(6)) } else { (rng.below(9), rng.below(12)) };
@@ -769,7 +827,7 @@ fn switch_consume(kit: &mut Kit, rng: &mut Rng, rest: Vec<Bind>, pre: Vec<Pre>, 
 }
 
 pub fn make_loop2(rng: &mut Rng, backends: &[Backend]) -> Scenario {
-    let mut kit = Kit { next: 5000 };
+    let mut kit = Kit { next: 5000, printless: false, obs_budget: 48 };
     let rv = backends.contains(&Backend::Rv);
     // p padding variables to the left slide the structures across the register/spill boundary
     let p = if rv { rng.below(4) } else { [0, 1, 3, 5, 6, 7, 9, 12, 13, 15][rng.below(10)] };
